@@ -203,7 +203,9 @@ class C16(E1Check):
                     before = open(path, "rb").read()
                     db = TinyFlux(path, auto_index=auto)
                     if early_read and n:
-                        db.get(TagQuery().a == "x")  # stops at the first row: the file position is left mid-file
+                        db.insert(self.alpha.mk_point("P5"))  # an earlier append on this handle ...
+                        before = open(path, "rb").read()
+                        db.get(TagQuery().a == "x")  # ... then a read that stops at the first row: position left mid-file
                     plan = SEAM.begin(Plan(watch=path))
                     db.insert(self.alpha.mk_point("P5"))
                     SEAM.end()
